@@ -261,9 +261,11 @@ Scenario generate(const std::string& prop, uint64_t seed, const std::string& tie
 
     HistOp full; full.op = "execute"; full.flags = F_ALL;
     bool topSequence = false;
-    if (sc.isPeriodic() && !sc.isTsm() && sc.height >= 2 && prop != "C12" && prop != "C13" && r.chance(0.6)) {
+    const char* forceTop = getenv("TBFSIM_FORCE_TOP");
+    if (sc.isPeriodic() && sc.height >= 2 && prop != "C12" && prop != "C13" && (r.chance(0.6) || forceTop)) {
         // the documented periodic sequence: bottom-to-top, top tree, transfer, top-to-bottom
         sc.topLevels = int(r.below(5)) - 1;
+        if (forceTop) sc.topLevels = atoi(forceTop);
         sc.upper = 1;
         HistOp a = full, t, b = full, c = full;
         a.flags = F_P2M | F_M2M; t.op = "top"; t.flags = F_ALL; b.flags = F_M2L | F_P2P; c.flags = F_L2L | F_L2P;
